@@ -64,12 +64,12 @@ Proof.
                  = 8 + 8 * blen dims + 8 * blen mx).
   { unfold blen at 1. rewrite dataspace_len. unfold size_dataspace. cbn [ds_dims ds_maxdims]. blia. }
   rewrite Hlen.
-  replace (8 + 8 * blen dims + 8 * blen mx <? 2) with false by (symmetry; apply N.ltb_ge; blia).
+  replace (8 + 8 * blen dims + 8 * blen mx <? 3) with false by (symmetry; apply N.ltb_ge; blia).
   unfold enc_dataspace; cbn [ds_dims ds_maxdims].
   assert (Hw : wrap8 (blen dims) = blen dims) by (unfold wrap8, blen; apply N.mod_small; blia).
   rewrite Hw.
   cbn [app zeros repeat]. rewrite index0, index1, index2. cbn [obind].
-  cbn [N.eqb Pos.eqb negb andb].
+  cbn [N.eqb Pos.eqb negb andb]. cbn [obind]. cbv iota.
   replace (blen dims =? 0) with false by (symmetry; apply N.eqb_neq; unfold blen; blia).
   set (flags := match mx with [] => 0 | _ => 1 end).
   change (1 :: blen dims :: flags :: 0 :: 0 :: 0 :: 0 :: 0 :: enc_dims8 dims ++ enc_dims8 mx)
